@@ -84,6 +84,20 @@ type Contract struct {
 	MapInvs   []MapInv
 	RevealIn  map[string][]string // obligation-name suffix -> opaque spec functions revealed for that obligation only
 	LocalTypes map[string]string  // local variable name -> required Go type (printed with package names)
+	CallerEnsures []CallerClause  // postconditions known to callers only (ghost definitions; clauses justified by a lemma function)
+}
+
+// CallerClause: a postcondition that is assumed at call sites and is not an obligation of the body.
+//   ghostdef <clause>            defines ghost (uninterpreted) functions at the identity of a freshly allocated
+//                                result; sound because no other fact can mention that identity (the contract
+//                                must establish fresh(result))
+//   ensures-by <lemmafunc>: <c>  a consequence of this and other contracts that the named ghost lemma function
+//                                proves (it asserts exactly this clause after calling the function); the check
+//                                refuses the clause unless that lemma function is verified in the same run, and
+//                                the clause is not assumed inside that lemma function
+type CallerClause struct {
+	C  Clause
+	By string
 }
 
 // MapInv: an invariant over every value stored in maps of one type ($v is the
@@ -100,6 +114,8 @@ type AssertAt struct {
 	Ord    int
 	C      Clause
 	Lemma  bool // "assert after f#k: lemma L(args)": an instance of the proved lemma L is made available here
+	Path   []string // "assert after g/f#k": the call of f inside the inlined body of g (lemma functions that inline callees)
+	Bind   string   // "bind after f#k: $name = expr": names a ghost value for later anchors of this function
 }
 
 // Guard: field Field of struct type Type may only be accessed while the mutex field Mutex of the same object is held.
@@ -416,6 +432,22 @@ func (lib *SpecLib) loadFile(path, prefix string) error {
 					return bad(err)
 				}
 				cur.Ensures = append(cur.Ensures, c)
+			case "ghostdef":
+				c, err := clause(rest)
+				if err != nil {
+					return bad(err)
+				}
+				cur.CallerEnsures = append(cur.CallerEnsures, CallerClause{C: c})
+			case "ensures-by":
+				i := strings.Index(rest, ":")
+				if i < 0 {
+					return bad(fmt.Errorf("ensures-by <lemma function>: <clause>"))
+				}
+				c, err := clause(strings.TrimSpace(rest[i+1:]))
+				if err != nil {
+					return bad(err)
+				}
+				cur.CallerEnsures = append(cur.CallerEnsures, CallerClause{C: c, By: strings.TrimSpace(rest[:i])})
 			case "decreases":
 				c, err := clause(rest)
 				if err != nil {
@@ -429,8 +461,8 @@ func (lib *SpecLib) loadFile(path, prefix string) error {
 					return bad(err)
 				}
 				cur.Modifies = append(cur.Modifies, ms...)
-			case "assert":
-				// assert after callee#k: expr
+			case "assert", "bind":
+				// assert after [outer/]callee#k: expr        bind after [outer/]callee#k: $name = expr
 				r := strings.TrimSpace(strings.TrimPrefix(rest, "after"))
 				i := strings.Index(r, ":")
 				if i < 0 {
@@ -441,6 +473,24 @@ func (lib *SpecLib) loadFile(path, prefix string) error {
 				if j := strings.Index(loc, "#"); j >= 0 {
 					ord, _ = strconv.Atoi(loc[j+1:])
 					loc = loc[:j]
+				}
+				var path []string
+				if strings.Contains(loc, "/") {
+					parts := strings.Split(loc, "/")
+					path, loc = parts[:len(parts)-1], parts[len(parts)-1]
+				}
+				if word == "bind" {
+					eq := strings.Index(ex, "=")
+					if eq < 0 || !strings.HasPrefix(ex, "$") {
+						return bad(fmt.Errorf("bind after <callee>#<k>: $name = <expr>"))
+					}
+					nm := strings.TrimSpace(ex[:eq])
+					c, err := clause(strings.TrimSpace(ex[eq+1:]))
+					if err != nil {
+						return bad(err)
+					}
+					cur.Asserts = append(cur.Asserts, AssertAt{Callee: loc, Ord: ord, C: c, Path: path, Bind: nm})
+					continue
 				}
 				isLemma := false
 				if strings.HasPrefix(ex, "lemma ") {
@@ -458,7 +508,7 @@ func (lib *SpecLib) loadFile(path, prefix string) error {
 					}
 					cur.Uses = append(cur.Uses, call.Fun)
 				}
-				cur.Asserts = append(cur.Asserts, AssertAt{Callee: loc, Ord: ord, C: c, Lemma: isLemma})
+				cur.Asserts = append(cur.Asserts, AssertAt{Callee: loc, Ord: ord, C: c, Lemma: isLemma, Path: path})
 			case "mapinv":
 				i := strings.Index(rest, ": ")
 				if i < 0 {
